@@ -27,6 +27,7 @@ CHECKS = {
  "C06": dict(engine="symtorch+z3", tech="real fit loop executed with symbolic parameters, symbolic learning rate and scripted randomness; per-parameter .grad and SGD update identities decided by z3 on residuals; optimizer/scheduler call counts by pathfork", design="2/C06"),
  "C19": dict(engine="symtorch+z3", tech="index routine on symbolic rows (linear identity by z3), site order via symbolic psi rotation vs Kronecker reference; pathfork enumeration of spaces / indices / basis-letter patterns within the bound", design="2/C19"),
  "C11": dict(engine="pathfork", level=("model_checking", "Path-by-path exploration (pathfork) of operation histories on the real save / load / autoload code with real files: z3 enumerates every operation sequence within the bound; after every step the state is compared bit-for-bit with an independent record. Bounded (history length, two files), exhaustive within the bounds."), note="Trusted: vf/pathfork.py, z3, torch.save/torch.load themselves (used, not modelled).", tech="pathfork over operation histories (symbolic op codes enumerated by z3) on the real save/load/autoload with real files; bit-for-bit comparison with an independent record", design="2/C11"),
+ "C14": dict(engine="symtorch+z3", tech="symbolic execution with a scripted torch random tape and trapped foreign RNGs: seed forwarding, non-interference (two runs, identical symbolic results; residuals to z3), read-only evaluation (parameters keep their symbolic identity) over ~45 public operations", design="2/C14"),
  "C15": dict(engine="symtorch+z3", tech="symbolic execution of every cplx function vs complex-scalar arithmetic; z3 on residuals", design="2/C15"),
 }
 CHECKS.update(json.load(open(os.path.join(HERE, "bin", "manifest_extra.json"))) if os.path.exists(os.path.join(HERE, "bin", "manifest_extra.json")) else {})
